@@ -87,10 +87,11 @@ def main(argv):
     names = [a for a in argv if not a.startswith("--")]
     if not names:
         names = sorted(n for n in os.listdir(os.path.join(ROOT, "seeded")) if os.path.isdir(os.path.join(ROOT, "seeded", n)))
-    out_p = os.path.join(ROOT, "seeded", "RESULTS.json")
-    results = json.load(open(out_p)) if os.path.exists(out_p) else {}
+    out_p = os.environ.get("EVAL_RESULTS") or os.path.join(ROOT, "seeded", "RESULTS.json")
     for n in names:
         r = evaluate(n, run_tests=run_tests, allow_thorough="--quick-only" not in argv)
+        # re-read before writing: several evaluations may run side by side
+        results = json.load(open(out_p)) if os.path.exists(out_p) else {}
         results[n] = r
         print(n, "caught_by=", r.get("caught_by"), "demo", r.get("demo_unpatched_rc"), "->", r.get("demo_patched_rc"), r.get("tests_tail", ""), (r.get("quick_keys") or r.get("thorough_keys") or [r.get("error", "")])[:1], flush=True)
         with open(out_p, "w") as f:
